@@ -105,6 +105,20 @@ func microsSinceMidnight(t time.Time) int64 {
 	return int64(h)*3_600_000_000 + int64(m)*60_000_000 + int64(s)*1_000_000 + int64(t.Nanosecond()/1000)
 }
 
+// timeToTimestamp is the inverse of timestampToTime: the instant t counted in
+// the unit the column declares.
+func timeToTimestamp(t time.Time, ts *arrow.TimestampType) arrow.Timestamp {
+	switch ts.Unit {
+	case arrow.Second:
+		return arrow.Timestamp(t.Unix())
+	case arrow.Millisecond:
+		return arrow.Timestamp(t.UnixMilli())
+	case arrow.Nanosecond:
+		return arrow.Timestamp(t.UnixNano())
+	}
+	return arrow.Timestamp(t.UnixMicro())
+}
+
 // decimalFromValue accepts a string-shaped Decimal value and converts it to
 // a decimal128.Num at the given scale.
 func decimalFromValue(value any, dt *arrow.Decimal128Type) (decimal128.Num, error) {
@@ -414,7 +428,7 @@ func buildArray(mem memory.Allocator, dt arrow.DataType, value any) (arrow.Array
 		if !ok {
 			return nil, fmt.Errorf("expected time.Time for TIMESTAMP, got %T", value)
 		}
-		b.Append(arrow.Timestamp(t.UTC().UnixMicro()))
+		b.Append(timeToTimestamp(t, ts))
 		return b.NewArray(), nil
 
 	case arrow.TIME64:
@@ -713,7 +727,7 @@ func appendToBuilder(b array.Builder, dt arrow.DataType, value any) error {
 		if !ok {
 			return fmt.Errorf("expected time.Time for TIMESTAMP, got %T", value)
 		}
-		b.(*array.TimestampBuilder).Append(arrow.Timestamp(t.UTC().UnixMicro()))
+		b.(*array.TimestampBuilder).Append(timeToTimestamp(t, dt.(*arrow.TimestampType)))
 	case arrow.TIME64:
 		t, ok := asTime(value)
 		if !ok {
